@@ -92,7 +92,7 @@ pub fn run_case(bins: &Binaries, case: &Case, reference: &[(String, Vec<u8>)], i
     let mut rng = Rng::new(mix2(seed, 0xc10e2));
     // "slow but within its limit" provers (real time): only with -t 1, so that a case costs seconds, not minutes
     let t_limit: u64 = case.run_flags.iter().position(|f| f == "-t").and_then(|i| case.run_flags.get(i + 1)).and_then(|v| v.parse().ok()).unwrap_or(60);
-    let slow = slow_case && t_limit == 1 && reference.len() >= 3 && reference.len() <= 14;
+    let slow = slow_case && t_limit == 1;
     let (slow_lo, slow_hi) = (450u64, 800u64);
     let mut standins: Vec<Standin> = vec![];
     let mut released = 0usize;
@@ -344,24 +344,29 @@ pub fn campaign(seed: u64, n: u64, thorough: bool, workers: usize, e2_only: bool
                 }
                 // same generator as E1, on its own index range
                 let i = 1_000_000_000 + j;
-                let (mut case, prep, skip) = crate::c10::draw_case(seed, i, &tasks, &tier, &mut scratch);
-                if skip.is_some() {
-                    continue;
+                // every 8th case is a "slow provers" case: enough problems that a queue forms behind two instances,
+                // each prover slow in real time but inside its own one-second limit
+                let slow_case = j % 8 == 7;
+                let mut drawn = None;
+                for attempt in 0..if slow_case { 80u64 } else { 1 } {
+                    let (c, p, skip) = crate::c10::draw_case(seed, i + attempt * 1_000_003, &tasks, &tier, &mut scratch);
+                    if skip.is_some() {
+                        continue;
+                    }
+                    let p = p.unwrap();
+                    if !slow_case || (10..=14).contains(&p.reference.len()) {
+                        drawn = Some((c, p));
+                        break;
+                    }
                 }
-                let prep = prep.unwrap();
+                let Some((mut case, prep)) = drawn else { continue };
+                if slow_case {
+                    case.run_flags = vec!["-n".into(), "2".into(), "-t".into(), "1".into()];
+                    case.instances = 2;
+                }
                 // keep only the fault kinds E2 can produce
                 case.plan.faults.retain(|_, f| matches!(f, Fault::EarlyExit { .. }));
                 let fault_free = case.plan.faults.is_empty() && !case.plan.spawn_all_enoent;
-                // every 6th case asks for slow provers; to make that likely to apply, force -t 1 there
-                let slow_case = j % 6 == 5;
-                if slow_case {
-                    if let Some(p) = case.run_flags.iter().position(|f| f == "-t") {
-                        case.run_flags[p + 1] = "1".into();
-                    } else {
-                        case.run_flags.push("-t".into());
-                        case.run_flags.push("1".into());
-                    }
-                }
                 let x = match run_case(&bins, &case, &prep.reference, &prep.in_dir, &mut scratch, mix2(seed, i), slow_case) {
                     Ok(x) => x,
                     Err(e) => {
